@@ -248,6 +248,11 @@ def main(argv=None):
     os.makedirs(base, exist_ok=True)
     run_root = tempfile.mkdtemp(prefix='dfverif-run-', dir=base)
     os.environ['VERIF_SCRATCH'] = run_root
+    # the library leaves its own temporary files behind (dumpers, kvfile, sort): send them to the same place
+    libtmp = os.path.join(run_root, 'libtmp')
+    os.makedirs(libtmp, exist_ok=True)
+    os.environ['TMPDIR'] = libtmp
+    tempfile.tempdir = None
 
     def _term(signum, frame):
         raise SystemExit(2)
